@@ -283,17 +283,25 @@ Fixpoint copy_ops (g : fname) (s : sub) (us : uidl) (fls : list mfile) (ug : uid
       end
   end.
 
+Definition without_rec (u : uidl) (uid : N) : uidl :=
+  {| u_val := u_val u; u_next := u_next u; u_guid := u_guid u;
+     u_recs := filter (fun r => negb (r_uid r =? uid)) (u_recs u) |}.
+
+(* MailboxData.move (source <> destination): rename the file, drop the
+   source record, add the destination record; two temp names per message *)
 Fixpoint move_ops (f g : fname) (s : sub) (us : uidl) (fls : list mfile) (ug : uidl)
          (uids : list N) (tmps : list bytes) : list fsop :=
   match uids with
   | [] => []
   | uid :: r =>
       match locate us fls uid, tmps with
-      | Some (rec, x), tmp :: tmps' =>
+      | Some (rec, x), tmp1 :: tmp2 :: tmps' =>
+          let us' := without_rec us uid in
           let ug' := with_rec ug (r_fields rec) (fname_of_file x) in
           ORename (PMsg f (m_sub x) (m_key x) (m_info x)) (PMsg g s (m_key x) (m_info x))
-          :: locked_rewrite g tmp ug' ++ move_ops f g s us fls ug' r tmps'
-      | Some _, [] => []
+          :: locked_rewrite f tmp1 us' ++ locked_rewrite g tmp2 ug'
+          ++ move_ops f g s us' fls ug' r tmps'
+      | Some _, _ => []
       | None, _ => move_ops f g s us fls ug r tmps
       end
   end.
